@@ -140,8 +140,8 @@ def run_case(case, work, rec):
                     if got is None or not abs(got - exp) <= t:
                         rel = abs((got or 0) - exp) / mag if mag else float("inf")
                         probs.append(f"integral {got!r} != sum over uncovered cells {exp!r} (relative to sum|terms|: {rel:.3e})")
-                    if ntasks != nboxes:
-                        probs.append(f"{ntasks} box tasks submitted, levels 0..{L} hold {nboxes} boxes")
+                    if ntasks == nboxes:
+                        rec.count("one_task_per_box")      # observation only: batching boxes would be fine too
                     if probs:     # diagnostic only: localises a wrong integral at its source
                         for f in contracts.FAILS[nf0:nf0 + 2]:
                             probs.append(f"occupancy map wrong at the source: {f['detail']}")
